@@ -17,7 +17,12 @@ RULE = ('kept chunks: every (number of bounds, n_chunks_kept) pair of the tier o
         'call judged by the clauses of a single call: every ordered pair of (subset_chunks, count in {None,0,1,2,10}) '
         'settings on the setups x cluster vectors with spikes inside and outside the kept chunks, request lists / '
         'subsets in rotation (always a shared cluster); every subset_chunks pattern of 3 and 4 calls; a seeded random '
-        'stream of histories. Non-trivial = the call returns at least one '
+        'stream of histories. Stage 5 (value ranges / dtypes): cluster ids around every power-of-two boundary of the '
+        'integer widths (2^7, 2^8, 2^15, 2^16, 2^31, 2^32, 2^40 -1/+0/+1, 10^6, negative ids) as largest / smallest / '
+        'neighbouring id, on cluster vectors of dtype int64, int32, uint32, uint64, uint16; spike samples and chunk '
+        'grids translated to offsets around 2^24, 2^31, 2^32, 2^40, 2^52 and to 30 kHz recording lengths (one spike per '
+        'sample across every bound), under every integer / float64 time dtype that holds them; a seeded random stream '
+        'with both transformations. Non-trivial = the call returns at least one '
         'spike (kept: at least two chunks in the grid); distinct = distinct abstract input.')
 EXHAUSTIVE = {'quick': True, 'thorough': True}
 CLAUSES = {
@@ -74,6 +79,106 @@ def _route(seed, nst, nspk, rate):
     return {'kind': 'route', 'inp': {'seed': seed, 'nst': nst, 'nspk': nspk, 'rate': rate}}
 
 
+# ---- stage 5: value-range axes (ids and sample numbers far from 0) ------------------------------------------
+# dtype of the spike-cluster vector handed to _spikes_per_cluster (inp['cdt']; int64 when the ids do not fit, or
+# when the spread of a signed vector exceeds the dtype -- np.diff on such a vector is property C07's business)
+CDTS = ['int64', 'int32', 'uint32', 'uint64', 'uint16']
+BIG_IDS = sorted({2 ** p + d for p in (7, 8, 15, 16, 31, 32, 40) for d in (-1, 0, 1)} | {10 ** 6})
+NEG_IDS = [-1, -2, -2 ** 15 - 1, -2 ** 31 - 1]
+# offsets of the sample numbers: around the 24-bit significand of single precision, the 32-bit integers, beyond
+# (all below 2 ** 52: float64 times on the half-integer scale and float64 upcasts stay exact)
+BIG_T = [2 ** 24 - 3, 2 ** 24 + 1, 29999997, 59999999, 10 ** 8 + 1, 2 ** 31 - 3, 2 ** 31 + 1, 2 ** 32 - 3,
+         2 ** 32 + 1, 2 ** 40 + 1, 10 ** 12 + 7, 2 ** 52 - 63]
+
+
+def _map_ids(case, m, cdt=0):
+    """the same case with every cluster id x (spike vector and requests) replaced by m.get(x, x)"""
+    i = dict(case['inp'])
+    f = lambda l: [m.get(x, x) for x in l]
+    i['clusters'] = f(i['clusters'])
+    if 'calls' in i:
+        i['calls'] = [dict(c, req=f(c['req'])) for c in i['calls']]
+    else:
+        i['req'] = f(i['req'])
+    i['cdt'] = cdt
+    return {'kind': case['kind'], 'inp': i}
+
+
+def _shift(case, b, mul=1):
+    """the same case with every spike time and chunk bound x replaced by b + mul * x"""
+    i = dict(case['inp'])
+    i['times'] = [b + mul * x for x in i['times']]
+    i['grid'] = [b + mul * x for x in i['grid']]
+    return {'kind': case['kind'], 'inp': i}
+
+
+def _wide_cases(quick, n0=0):
+    cases = []
+    n = n0
+    t = list(range(12))
+    g = [0, 3, 6, 9, 12]
+    # (a) every boundary id v as the largest / the smallest / a middle id of the vector, and beside its neighbours
+    for v in BIG_IDS + NEG_IDS:
+        vecs = [[3 if x % 3 == 0 else v if x % 3 == 1 else 9 for x in (0, 1, 0, 2, 1, 0, 2, 2, 1, 0, 1, 2)],
+                [v if x == 0 else v + 1 if x == 1 else 2 * abs(v) + 5 for x in (2, 0, 1, 0, 2, 0, 1, 1, 0, 2, 0, 1)],
+                [v - 1 if x == 0 else v if x == 1 else v + 1 for x in (1, 0, 2, 1, 1, 0, 2, 0, 1, 2, 0, 1)],
+                [0 if x == 0 else v for x in (1, 0, 0, 1, 1, 0, 1, 0, 0, 1, 1, 0)]]
+        for cl in vecs:
+            ids = sorted(set(cl))
+            reqs = [[c] for c in ids] + [ids, ids[::-1], [ids[-1], ids[-1] + 1, ids[0] - 1]]
+            for r, req in enumerate(reqs):
+                nn, sc = ((None, False), (None, True), (1, True), (0, False), (2, False), (10, True))[(n + r) % 6]
+                c = _sel(t, cl, g, 2, nn, req, sc, None, n % len(CFGS))
+                c['inp']['cdt'] = n % len(CDTS)
+                cases.append(c)
+                n += 1
+            if not quick:
+                cases.append(_seq(t, cl, g, 2, [_call(None, [ids[0]], True), _call(1, ids, False),
+                                                 _call(None, ids[::-1], True)], n % len(CFGS)))
+                cases[-1]['inp']['cdt'] = n % len(CDTS)
+    # (b) one spike per sample from below the grid to above it, at every offset: step-2 and step-3 grids (odd and
+    # even bounds), every stride; both clusters asked for, with and without a limiting count
+    for b in BIG_T:
+        for nb, step in ((3, 2), (4, 3), (5, 2)) if quick else ((2, 1), (3, 2), (4, 3), (5, 2), (6, 3), (7, 1)):
+            grid = [step * x for x in range(nb)]
+            ts = list(range(-2, grid[-1] + 3))
+            for k in range(1, nb + 1):
+                for cfg in range(len(CFGS)) if (not quick or k == 2) else (n % len(CFGS),):
+                    cases.append(_shift(_sel(ts, [1] * len(ts), grid, k, None, [1], True, None, cfg), b))
+                cases.append(_shift(_sel(ts, [1 + (x % 2) for x in range(len(ts))], grid, k, 2, [2, 1], True, None,
+                                         (n + 1) % len(CFGS)), b))
+                n += 1
+        # a long recording: chunks of `b` samples, spikes one sample before / on / after every bound
+        if 3 * b + 1 >= 2 ** 52:
+            continue
+        grid = [0, b, 2 * b, 3 * b]
+        ts = sorted({x + d for x in grid for d in (-1, 0, 1)} | {10})
+        for k in (1, 2, 3):
+            cases.append(_sel(ts, [5 + (x % 2) for x in range(len(ts))], grid, k, None, [5, 6], True, None, (n % 2) * 2))
+            n += 1
+    return cases
+
+
+def _random_wide(rng, seq=False):
+    """a random case (as _random / _random_seq) with its ids mapped injectively into the boundary ids and / or its
+    times and grid translated to a large offset"""
+    case = _random_seq(rng) if seq else _random(rng)
+    r = rng.random()
+    if r < 0.65:
+        i = case['inp']
+        ids = sorted(set(i['clusters']) | {x for c in i.get('calls', [i]) for x in c['req']})
+        pool = BIG_IDS + (NEG_IDS if rng.random() < 0.2 else [])
+        if rng.random() < 0.5:
+            # a window of neighbouring boundary values (so that the largest id sits exactly on a boundary)
+            a = rng.randrange(len(pool))
+            pool = pool[max(0, a - len(ids)):a + 1] + [0, 3]
+        m = dict(zip(ids, rng.sample(pool, min(len(ids), len(pool)))))
+        case = _map_ids(case, m, rng.randrange(len(CDTS)))
+    if r > 0.35:
+        case = _shift(case, rng.choice(BIG_T) + rng.randint(-2, 2), rng.choice((1, 1, 1, 2, 1000)))
+    return case
+
+
 def _corpus():
     c = []
     # upstream's example, on a doubled integer scale
@@ -116,6 +221,18 @@ def _corpus():
     c.append(_seq(t, cl, g, 2, [_call(None, [1], True), _call(None, [1], False)]))
     c.append(_seq(t, cl, g, 2, [_call(None, [2], False), _call(None, [2], True)]))
     c.append(_seq(t, cl, g, 2, [_call(1, [2], True), _call(1, [1], False), _call(0, [2, 1], False, [1, 3, 4, 5])]))
+    # stage 5: forced instances of the value-range axes. (i) a cluster id of exactly 2 ** 16 as the largest id (the
+    # demo of C17-m10), (ii) sample numbers of a 50-minute recording at 30 kHz with spikes one sample before / on /
+    # after the chunk bounds (the demo of C17-m11), under integer time dtypes
+    t = [10 * x for x in range(12)]
+    for v in (65536, 65535, 70000):
+        cl = [3, v, 3, 9, v, 3, 9, 9, v, 3, v, 9]
+        for req in ([3], [v], [9, v, 3]):
+            c.append(_sel(t, cl, [0, 30, 60, 90, 120], 2, None, req, True, None))
+    c[-1]['inp']['cdt'] = 1
+    t = [10, 29999999, 30000000, 30000001, 59999999, 60000000, 89999999]
+    for cfg in (0, 2):
+        c.append(_sel(t, [5, 6, 5, 6, 5, 6, 5], [0, 30000000, 60000000, 90000000], 2, None, [5, 6], True, None, cfg))
     return c
 
 
@@ -135,6 +252,7 @@ def generate(tier, rng):
     if tier == 'search':
         cases += [_random(rng, big=True) for _ in range(6000)]
         cases += [_random_seq(rng, big=True) for _ in range(2000)]
+        cases += [_random_wide(rng, seq=(x % 4 == 3)) for x in range(3000)]
         return cases
     quick = tier == 'quick'
     # kept chunks: all (bounds, k)
@@ -182,6 +300,12 @@ def generate(tier, rng):
     for _ in range(60 if quick else 600):
         cases.append(_route(rng.randrange(10 ** 6), rng.choice((1, 1, 2, 3, 50)), rng.choice((3, 8, 20, 40, 60)),
                             rng.choice((0.01, 0.005))))
+    # stage 5: ids / sample numbers far from 0 (after everything else: the earlier random streams are unchanged)
+    cases += _wide_cases(quick, n)
+    for _ in range(500 if quick else 8000):
+        cases.append(_random_wide(rng))
+    for _ in range(150 if quick else 2500):
+        cases.append(_random_wide(rng, seq=True))
     return cases
 
 
@@ -270,10 +394,26 @@ def _random(rng, big=False):
 # ---- implementation side -------------------------------------------------------------------------
 
 def _unscale(x, scale):
+    if isinstance(x, int) and scale == 1:
+        return x                        # exact for integer grids of any magnitude
     v = float(x) / scale
     if v != int(v):
         raise RuntimeError('chunks_kept holds %r, not a value of the supplied grid' % (x,))
     return int(v)
+
+
+def _cdt(i):
+    """dtype name of the spike-cluster vector: CDTS[inp['cdt']] when it holds the ids (and, for a signed dtype, their
+    spread), int64 otherwise"""
+    import numpy as np
+    name = CDTS[i.get('cdt', 0)]
+    cl = i.get('clusters', [])
+    if cl:
+        info = np.iinfo(name)
+        lo, hi = min(cl), max(cl)
+        if lo < info.min or hi > info.max or (info.min < 0 and hi - lo > info.max):
+            name = 'int64'
+    return name
 
 
 def _selector(i):
@@ -283,12 +423,14 @@ def _selector(i):
     times = i.get('times', [])
     if tdt == 'uint64' and any(t < 0 for t in times):
         tdt = 'int64'
+    if tdt == 'int32' and any(not -2 ** 31 <= t < 2 ** 31 for t in times):
+        tdt = 'int64'
     st = (np.array(times, dtype=np.float64) * scale) if tdt == 'float64' else np.array(times, dtype=tdt)
     grid = [g * scale for g in i['grid']] if scale != 1 else list(i['grid'])
     if gkind != 'list':
         grid = np.array(grid, dtype=gkind)
     # exactly the construction of TemplateModel.save_spikes_subset_waveforms and of upstream's tests
-    spc = _spikes_per_cluster(np.array(i.get('clusters', []), dtype=np.int64))
+    spc = _spikes_per_cluster(np.array(i.get('clusters', []), dtype=_cdt(i)))
     ss = SpikeSelector(get_spikes_per_cluster=lambda cl: spc.get(cl, np.array([], dtype=np.int64)),
                        spike_times=st, chunk_bounds=grid, n_chunks_kept=i['k'])
     kept = [_unscale(x, scale) for x in np.asarray(ss.chunks_kept).tolist()]
@@ -452,6 +594,15 @@ def _bucket(n):
     return str(n) if n <= 3 else '4-9' if n <= 9 else '10+'
 
 
+def _magnitude(v):
+    if v < 0:
+        return '<0'
+    for p in (8, 16, 24, 32, 53):
+        if v < 2 ** p:
+            return '<2^%d' % p
+    return '>=2^53'
+
+
 def dist(case, obs):
     k, i = case['kind'], case['inp']
     if k == 'route':
@@ -470,6 +621,11 @@ def dist(case, obs):
         return out
     nch = len(i['grid']) - 1
     out.append('%s.n_chunks=%s' % (k, _bucket(nch)))
+    if k in ('select', 'seq'):
+        out.append('ids.dtype=%s' % (_cdt(i) if i['clusters'] else 'int64'))
+        out.append('ids.max=%s' % _magnitude(max(i['clusters'], default=0)))
+        out.append('ids.negative=%s' % any(x < 0 for x in i['clusters']))
+        out.append('times.max=%s' % _magnitude(max(i['times'] + i['grid'])))
     out.append('%s.kept_chunks=%s' % (k, _bucket(len(obs[1]) // 2)))
     out.append('%s.k_vs_chunks=%s' % (k, 'lt' if i['k'] < nch else 'eq' if i['k'] == nch else 'gt'))
     if k == 'seq':
@@ -537,6 +693,17 @@ def shrink(case):
         return
     if i.get('cfg', 0) != 0:
         yield mk(cfg=0)
+    if k in ('select', 'seq'):
+        if i.get('cdt', 0) != 0:
+            yield mk(cdt=0)
+        # large ids -> their ranks (order-preserving), large sample numbers -> translated towards 0
+        ids = sorted(set(i['clusters']) | {x for c in i.get('calls', [i]) for x in c['req']})
+        if ids and (ids[-1] > len(ids) + 1 or ids[0] < 0):
+            yield _map_ids({'kind': k, 'inp': i}, {x: r for r, x in enumerate(ids)}, i.get('cdt', 0))
+        lo = min(i['grid'] + i['times'])
+        if lo > 100:
+            for d in (lo, lo // 2):
+                yield _shift({'kind': k, 'inp': i}, -d)
     g = i['grid']
     if k == 'seq':
         calls = i['calls']
@@ -607,10 +774,11 @@ def repro(case):
     pre = ("import sys; sys.path[:0] = ['/verif/harness', '/repo']\n"
            "from vt import npshim; npshim.setup_process()\n"
            "import numpy as np\nfrom phylib.io.array import SpikeSelector, _spikes_per_cluster\n")
-    body = ("spc = _spikes_per_cluster(np.array(%r, dtype=np.int64))\n"
+    body = ("spc = _spikes_per_cluster(np.array(%r, dtype=np.%s))\n"
             "ss = SpikeSelector(get_spikes_per_cluster=lambda cl: spc.get(cl, np.array([], dtype=np.int64)),\n"
             "                   spike_times=np.array(%r), chunk_bounds=%r, n_chunks_kept=%r)\n"
-            "print('chunks_kept', ss.chunks_kept)\n" % (i.get('clusters', []), i.get('times', []), i['grid'], i['k']))
+            "print('chunks_kept', ss.chunks_kept)\n" % (i.get('clusters', []), _cdt(i), i.get('times', []), i['grid'],
+                                                       i['k']))
     if k == 'seq':
         body += "# the calls below are made one after the other on the SAME object ss\n"
         for j, c in enumerate(i['calls']):
